@@ -1,7 +1,8 @@
 (** C03 — Work-steal queues neither lose nor duplicate items (ordered queue).
     Sequential part: every history of pushes and pops over any number of handles. The
     concurrent counter protocol of the shared queue is in Props/C03 via Queue/Conc (below). *)
-From OCV Require Import Base.Prelude Queue.PMap Queue.OWS Queue.OWSOracle Queue.OWSProofs.
+From Coq Require Import Permutation.
+From OCV Require Import Base.Prelude Queue.PMap Queue.OWS Queue.OWSOracle Queue.OWSProofs Queue.Conc Queue.ConcProofs.
 Open Scope Z_scope.
 
 (** for every well-formed history (handles exist, item ids distinct): a pop only returns a
@@ -25,5 +26,53 @@ Example C03_nonvacuous :
         OItem (Some 1); OItem (Some 2); OItem (Some 5); OItem (Some 6); OItem None; OItem None; ONum 0].
 Proof. split; vm_compute; reflexivity. Qed.
 
+(** * Concurrent part: the shared queue of BOTH work-steal queues (the plain queue is the case of
+    a single priority), any number of threads, any programs of pushes and pops, ANY schedule, one
+    step per access to shared memory *)
+
+(** every reachable state: what was inserted is in the queue, in a popper's hand, or returned *)
+Theorem C03_conservation : forall progs sched, let s := crun (mk_cst progs) sched in
+  Permutation (c_inserted s) (pm_items (c_shq s) ++ held s ++ returned s).
+Proof. exact conc_conservation. Qed.
+
+(** a pop never invents or duplicates an item *)
+Theorem C03_pop_at_most_once : forall progs sched x, let s := crun (mk_cst progs) sched in
+  (count_occ Z.eq_dec (returned s ++ held s) x <= count_occ Z.eq_dec (c_inserted s) x)%nat.
+Proof. exact conc_pop_at_most_once. Qed.
+
+(** the counter never under-reports: it counts the items plus the calls in flight *)
+Theorem C03_len_bound : forall progs sched, let s := crun (mk_cst progs) sched in
+  c_len s = pm_count (c_shq s) + inflight_push s + inflight_dec s.
+Proof. exact conc_len. Qed.
+
+(** once all threads stop the reported length is exact and every pushed item is in the queue or
+    was returned exactly once; a drain then returns exactly the rest *)
+Theorem C03_quiescent_exact : forall progs sched, let s := crun (mk_cst progs) sched in
+  quiescent s = true ->
+  c_len s = pm_count (c_shq s) /\ Permutation (pushed_of progs) (pm_items (c_shq s) ++ returned s).
+Proof. exact conc_quiescent. Qed.
+
+Theorem C03_outcome_ok : forall progs sched, let s := crun (mk_cst progs) sched in
+  quiescent s = true -> outcome_ok (pushed_of progs) (observe s) = true.
+Proof. exact conc_outcome_ok. Qed.
+
+(** every outcome the exhaustive enumeration (the one compared with the real code) produces *)
+Theorem C03_all_outcomes_ok : forall fuel progs o,
+  In o (all_outcomes fuel (mk_cst progs)) -> outcome_ok (pushed_of progs) o = true.
+Proof. exact conc_all_outcomes_ok. Qed.
+
+(** the protocol before the repair (push; then load; then store(load+1)) loses updates *)
+Theorem C03_old_protocol_refuted : exists progs sched,
+  let s := crun_old (mk_ost progs) sched in
+  quiescent_old s = true /\ oc_len s <> pm_count (oc_shq s).
+Proof. exact old_protocol_loses_updates. Qed.
+
 Print Assumptions C03_holds.
+Print Assumptions C03_conservation.
+Print Assumptions C03_pop_at_most_once.
+Print Assumptions C03_len_bound.
+Print Assumptions C03_quiescent_exact.
+Print Assumptions C03_outcome_ok.
+Print Assumptions C03_all_outcomes_ok.
+Print Assumptions C03_old_protocol_refuted.
 Print Assumptions C03_wf_needed.
